@@ -19,6 +19,8 @@ structure PrintEnv where
   rc : Nat → Option String
   /-- `TPM_RC.attributes()` rows for a value -/
   rcRows : Nat → List (String × Nat)
+  /-- the free-text details of those rows (row name, text up to the colon) -/
+  rcDetails : Nat → List (String × String) := fun _ => []
 
 def PathNode.last (p : Path) : String := (p.getLast?.map PathNode.str).getD ""
 
@@ -56,7 +58,14 @@ def attrRows (env : PrintEnv) (m : MEvent) : List Row :=
       | .bitfield => p.masks
       | .rc => env.rcRows x.toNat
       | _ => []
-    masks.map fun nm => .field "" m.path.length ("." ++ nm.1) [] (bitsRow (8 * p.size) nm.2 x.toNat)
+    let details := match p.flavour with
+      | .rc => env.rcDetails x.toNat
+      | _ => []
+    masks.map fun nm =>
+      let d := match details.find? (·.1 == nm.1) with
+        | some (_, t) => "  " ++ t
+        | none => ""
+      .field "" m.path.length ("." ++ nm.1) [] (bitsRow (8 * p.size) nm.2 x.toNat ++ d)
   | _, _ => []
 
 def isChild (parent child : Path) : Bool :=
